@@ -80,6 +80,14 @@ claim("C06",
       "arbitrary instruction and HDF5 durability are not decided.",
       COMMON_NOTE, "who-may-call/ownership + dominance + path conditions + format/regex agreement + name resolution", "DESIGN.md section 3 C06")
 
+claim("C03",
+      "Static analysis with a proof-style clause: each of the 11 two-dimensional shapes' area formulas is typed in the free abelian group generated by the linear expansion factor "
+      "(getDimension(d): L if d in THERMAL_EXPANSION_DIMS else 1) and shown to have degree exactly 2 for all dimension values; linearExpansionFactor's exact rational normal form "
+      "gives 1+f = phi(T)/phi(T0) (path independence) and every solid material's density reduction is (1+f)^-2 of the same f. Plus forwarding of Tc/cold, dimension tables, order in "
+      "getDimension/setDimension (links first and unconverted), the all-paths sequence of setTemperature, and signature / getTk-getTc normalisation of every linearExpansionPercent. "
+      "Values of correlations and finiteness over temperature ranges are not decided.",
+      COMMON_NOTE, "unit/degree typing (abstract interpretation) + exact rational normal forms + dominance/ordering", "DESIGN.md section 3 C03")
+
 NA_REASON = {}
 
 
